@@ -133,6 +133,23 @@ theorem rowLoop_exec (dst kv : String) (hiE rE : IE) (val : FE) (s : State F) (f
   rw [h.2]
   have : ¬ C = 0 := by omega
   simp [this, setRow]
+/-! ### postconditions -/
+
+/-- postcondition of running a statement -/
+def Post (fuel : Nat) (st : St) (s : State F) (Q : State F → Prop) : Prop := Q (exec fuel st s)
+
+theorem Post.seq_eq {fuel : Nat} {a b : St} {s : State F} {Q : State F → Prop} (s' : State F)
+    (h : exec fuel a s = s') (hr : s'.ctl = .run) (k : Post fuel b s' Q) : Post fuel (.seq a b) s Q := by
+  unfold Post at *; rw [exec_seq_eq _ _ _ _ _ h hr]; exact k
+
+theorem Post.of_eq {fuel : Nat} {a : St} {s : State F} {Q : State F → Prop} (s' : State F)
+    (h : exec fuel a s = s') (k : Q s') : Post fuel a s Q := by
+  unfold Post; rw [h]; exact k
+
+theorem Post.rw {fuel : Nat} {a b : St} {s s' : State F} {Q : State F → Prop}
+    (h : exec fuel a s = exec fuel b s') (k : Post fuel b s' Q) : Post fuel a s Q := by
+  unfold Post at *; rw [h]; exact k
+
 /-! ### names -/
 
 @[simp] theorem pfx_eq (p a b : String) : (p ++ a = p ++ b) = (a = b) :=
